@@ -50,7 +50,62 @@ func pure(s Snip) bool {
 	return false
 }
 
-func expectedText(s Snip, recorded [][]byte) []byte {
+// scriptable: a lazy snippet whose text follows from the script alone - its members are pure snippets, and "render"
+// members whose nested snippets are pure or scriptable lazy snippets themselves
+func scriptable(s Snip) bool {
+	if s.K != "lazy" {
+		return false
+	}
+	for _, m := range s.Sub {
+		if m.K == "render" {
+			for _, x := range m.Sub {
+				if !pure(x) && !scriptable(x) {
+					return false
+				}
+			}
+			continue
+		}
+		if m.K == "nil" || !pure(m) {
+			return false
+		}
+	}
+	return true
+}
+
+// lazyText: what a lazy snippet renders, in the order the text is produced: the members in order, and where a "render"
+// member stands the text of its nested Render calls (nothing when its once-key was met before by this generator
+// instance).  once is threaded through the script in execution order.
+func lazyText(s Snip, once map[string]bool) []byte {
+	var b []byte
+	one := func(x Snip) {
+		if x.K == "lazy" {
+			b = append(b, lazyText(x, once)...)
+		} else {
+			b = append(b, expectedText(x, nil, once)...)
+		}
+	}
+	for _, m := range s.Sub {
+		if m.K != "render" {
+			one(m)
+			continue
+		}
+		if len(m.A) > 0 && m.A[0] != "" {
+			if once[m.A[0]] {
+				continue
+			}
+			once[m.A[0]] = true
+		}
+		for _, x := range m.Sub {
+			one(x)
+		}
+	}
+	return b
+}
+
+func expectedText(s Snip, recorded [][]byte, once map[string]bool) []byte {
+	if scriptable(s) {
+		return lazyText(s, once)
+	}
 	if !pure(s) {
 		return bytes.Join(recorded, nil)
 	}
@@ -76,7 +131,7 @@ func expectedText(s Snip, recorded [][]byte) []byte {
 	case "snippets":
 		var b []byte
 		for _, x := range s.Sub {
-			b = append(b, expectedText(x, nil)...)
+			b = append(b, expectedText(x, nil, once)...)
 		}
 		return b
 	}
@@ -361,6 +416,7 @@ func (prop) Run(raw json.RawMessage, scratch string) core.Result {
 		var sterms []string
 		var frags [][]byte
 		var rendered []byte
+		once := map[string]bool{} // once-keys of nested Render calls, per generator instance (= per package)
 		if len(script) != len(go_.Renders) {
 			res.Notes = append(res.Notes, fmt.Sprintf("generator %s: %d snippets scripted for %d calls, %d Render calls recorded", label, len(script), go_.Calls, len(go_.Renders)))
 		}
@@ -371,7 +427,7 @@ func (prop) Run(raw json.RawMessage, scratch string) core.Result {
 			}
 			sterms = append(sterms, pl.snip(s, rec))
 			frags = append(frags, rec...)
-			rendered = append(rendered, expectedText(s, rec)...)
+			rendered = append(rendered, expectedText(s, rec, once)...)
 		}
 		body := bytes.Join(frags, nil)
 		rep.Body = string(body)
